@@ -299,7 +299,10 @@ impl DepthFirstSearch {
                             || self.max_solutions == 1
                             || self.solutions.len() >= self.max_solutions
                         {
-                            return true; // keep changes
+                            // keep changes: close this candidate's frame (entries move to the
+                            // enclosing frame, so a failing ancestor can still undo them)
+                            facts.commit_undo_frame();
+                            return true;
                         }
 
                         // Otherwise (max_solutions > 1 and not enough yet), rollback and continue
@@ -330,7 +333,9 @@ impl DepthFirstSearch {
                                         || self.max_solutions == 1
                                         || self.solutions.len() >= self.max_solutions
                                     {
-                                        return true; // keep changes
+                                        // keep changes: close this candidate's frame
+                                        facts.commit_undo_frame();
+                                        return true;
                                     }
 
                                     // Otherwise, rollback and continue searching
